@@ -1087,7 +1087,13 @@ class SSHConnection(SSHPacketHandler, asyncio.Protocol):
             self._auth = None
 
         if self._error_handler:
-            self._error_handler(self, exc)
+            # pylint: disable=broad-except
+            try:
+                self._error_handler(self, exc)
+            except Exception:
+                self.logger.debug1('Uncaught exception in error handler '
+                                   'ignored', exc_info=sys.exc_info)
+
             self._acceptor = None
             self._error_handler = None
 
